@@ -1,16 +1,21 @@
 """C14 — configured credentials and overrides reach every request.
 
 Proof side: SV/Props/C14.lean (user value wins in prepare_headers / container.update / explicit-merge for all inputs;
-auth storage precedence; the auth cache fetches at most once per refresh interval for all interleavings and clocks).
+auth storage precedence; the auth cache fetches at most once per refresh interval for all interleavings and clocks;
+Override.for_operation selects exactly the applicable entries; every phase's site writes them over the generated data;
+history independence over every sequence of requests, and which memoising rewrites keep it).
 Correspondence: real prepare_headers, get_strategy_kwargs, CachingAuthProvider (scripted clock), AuthStorage.set and
-set_on_case vs the model. Replay: canary values configured through the engine (headers, basic auth, --set-* overrides,
-auth providers) must arrive at a recording loopback API on every request of every phase; a real multi-threaded cache
-stress run is judged by the spacing predicate.
+set_on_case (also with apply_to/skip_for filters), Override.for_operation, the real stateful before_call over generated
+operation histories, merge_explicit and add_coverage vs the model, on generated documents with several operations per
+path template. Replay: canary values configured through the engine (headers, basic auth, --set-* overrides, auth
+providers, api keys) must arrive at a recording loopback API on every request of every phase, judged per operation by
+the Lean specification (`judge`); a real multi-threaded cache stress run is judged by the spacing predicate.
 """
 from __future__ import annotations
 
 import base64
 import logging
+import random
 import threading
 import time
 
@@ -24,6 +29,14 @@ logging.getLogger("werkzeug").setLevel(logging.ERROR)
 
 NAMES = ["X-A", "x-a", "X-a", "Authorization", "authorization", "User-Agent", "user-agent", "X-B", "Cookie",
          "X-Schemathesis-TestCaseId", "x-schemathesis-testcaseid"]
+
+
+class Server(E.Server):
+    """the loopback server of engine_common with a short poll interval (shutdown does not wait half a second)"""
+
+    def __init__(self, app):
+        super().__init__(app)
+        self.thread = threading.Thread(target=lambda: self.srv.serve_forever(poll_interval=0.02), daemon=True)
 
 
 def pairs(d):
@@ -107,6 +120,8 @@ def strategy_kwargs_corr(chk, n):
         # replay: every configured header except User-Agent, every applicable override
         if hdrs:
             for k, v in hdrs.items():
+                if ov is not None and any(k.lower() == x.lower() for x in ov.headers):
+                    continue  # the same name under --header and --set-header: either value (the transport applies --header)
                 if k.lower() != "user-agent" and real.get("headers", {}).get(k) != v:
                     chk.violation("C14:get_strategy_kwargs:configured-header-dropped",
                                   f"configured header {k} is not passed to the generators", {"headers": hdrs, "kwargs": real})
@@ -172,11 +187,12 @@ def cache_threads(chk, rounds):
         keyed = rng.random() < 0.5
         fetches: dict = {}
         lock = threading.Lock()
+        trng = random.Random(rng.getrandbits(64))   # drawn from inside the worker threads: keep chk.rng's stream deterministic
 
         class P:
             def get(self, case, ctx):
                 t = time.monotonic()
-                time.sleep(rng.choice([0, 0.001, 0.004]))
+                time.sleep(trng.choice([0, 0.001, 0.004]))
                 with lock:
                     fetches.setdefault(case, []).append(t)
                 return t
@@ -267,6 +283,74 @@ def storage_corr(chk, n):
             chk.disagreement("auth:set_on_case", {"test": tv, "schema": sv, "global": gv}, expect, got)
 
 
+FILTER_RAW = {"openapi": "3.0.2", "info": {"title": "t", "version": "1"}, "paths": {
+    "/a": {"get": {"responses": {"200": {"description": "ok"}}}, "post": {"responses": {"200": {"description": "ok"}}}},
+    "/b": {"get": {"responses": {"200": {"description": "ok"}}}, "delete": {"responses": {"200": {"description": "ok"}}}}}}
+
+
+def storage_filters_corr(chk, n):
+    """providers registered through the real `AuthStorage.register(...)` with `apply_to` / `skip_for` filters: on every
+    operation the token of the first provider that applies to that operation and has data must be set"""
+    from schemathesis import auths
+    rng = chk.rng
+    drv = chk.driver()
+    schema = E.load_schema("http://127.0.0.1:9", raw=FILTER_RAW)
+    ops = [("/a", "GET"), ("/a", "POST"), ("/b", "GET"), ("/b", "DELETE")]
+    reqs, reals = [], []
+    for _ in range(n):
+        st = auths.AuthStorage()
+        spec = []
+        for _ in range(rng.randint(1, 4)):
+            val = rng.choice([None, rng.randint(1, 9), rng.randint(1, 9)])
+            kind = rng.choice(["none", "apply_to", "skip_for", "both"])
+            inc = rng.choice([{"method": "GET"}, {"method": "POST"}, {"path": "/a"}, {"path": "/b"}, {"method": ["GET", "DELETE"]}])
+            exc = rng.choice([{"method": "GET"}, {"path": "/a"}, {"path": "/b"}, {"method": "DELETE"}])
+            if kind == "both" and exc == inc:
+                kind = "apply_to"
+
+            class P:
+                v = val
+
+                def get(self, case, ctx):
+                    return self.v
+
+                def set(self, case, data, ctx):
+                    case.headers = CaseInsensitiveDict({"X-Token": str(data)})
+            reg = st.register(refresh_interval=rng.choice([None, 300]))
+            if kind in ("apply_to", "both"):
+                reg = reg.apply_to(**inc)
+            if kind in ("skip_for", "both"):
+                reg = reg.skip_for(**exc)
+            reg(P)
+            spec.append({"value": val, "apply_to": inc if kind in ("apply_to", "both") else None,
+                         "skip_for": exc if kind in ("skip_for", "both") else None})
+
+        def matches(f, path, method):
+            return all((method in v if isinstance(v, list) else method == v) if k == "method" else path == v for k, v in f.items())
+        for path, method in ops:
+            op = schema[path][method]
+            case = op.Case()
+            auths.set_on_case(case, auths.AuthContext(operation=op, app=None), st)
+            got = case.headers.get("X-Token") if case.headers else None
+            eff = [p["value"] if (p["apply_to"] is None or matches(p["apply_to"], path, method)) and
+                   not (p["skip_for"] is not None and matches(p["skip_for"], path, method)) else None for p in spec]
+            reqs.append(("first_with_data", {"providers": eff}))
+            reals.append((spec, path, method, eff, got))
+    for (spec, path, method, eff, got), fw in zip(reals, drv.batch(reqs)):
+        expect = None if fw is None else str(fw[1])
+        chk.case("auth:filtered-providers", key=[spec, path, method], nontrivial=any(p["apply_to"] or p["skip_for"] for p in spec),
+                 sample={"providers": spec, "operation": f"{method} {path}", "token": got})
+        chk.feature(f"auth-filter-outcome:{'token' if got else 'none'}")
+        if expect != got:
+            chk.disagreement("auth:filtered-providers", {"providers": spec, "operation": f"{method} {path}"}, expect, got)
+            first = next((str(v) for v in eff if v is not None), None)
+            if first != got:
+                chk.violation("C14:AuthStorage.set:token-of-the-first-applicable-provider-not-set",
+                              f"{method} {path}: expected the token {first!r} of the first provider that applies to this "
+                              f"operation and has data, the case carries {got!r}",
+                              {"providers": spec, "operation": f"{method} {path}", "token": got})
+
+
 CANARY_RAW = {
     "openapi": "3.0.2", "info": {"title": "t", "version": "1"},
     "paths": {
@@ -311,7 +395,7 @@ def canary_runs(chk, n):
         workers = rng.choice([1, 2])
         hdrs = {"X-Canary": "CANARY-H", "X-Other": "CANARY-O"} if use_hdr else {}
         ov = Override(query={"q": "CANARY-Q"}, headers={}, cookies={"sid": "CANARY-C"}, path_parameters={}) if use_ov else None
-        with E.Server(app) as srv:
+        with Server(app) as srv:
             schema = E.load_schema(srv.url, raw=CANARY_RAW)
             if use_provider:
                 @schema.auth()
@@ -356,38 +440,56 @@ def canary_runs(chk, n):
                                   f"request {r['method']} {r['path']} has cookie sid={r['cookies'].get('sid')!r}", ctx)
 
 
-SECURED_RAW = {
-    "openapi": "3.0.2", "info": {"title": "t", "version": "1"},
-    "components": {"securitySchemes": {"bearer": {"type": "http", "scheme": "bearer"}}},
-    "security": [{"bearer": []}],
-    "paths": {f"/s{i}": {"get": {"parameters": [{"name": "q", "in": "query", "schema": {"type": "integer"}}],
-                                 "responses": {"200": {"description": "ok"}, "401": {"description": "no"}}}} for i in range(3)},
-}
+def secured_raw(scheme):
+    """three operations behind one security requirement: `bearer` (http bearer, credential given with --header) or an
+    apiKey in the query / a cookie / a header (credential given with --set-query / --set-cookie / --set-header)"""
+    if scheme == "bearer":
+        sec = {"type": "http", "scheme": "bearer"}
+    else:
+        sec = {"type": "apiKey", "in": scheme, "name": "X-API-Key" if scheme == "header" else "api_key"}
+    return {
+        "openapi": "3.0.2", "info": {"title": "t", "version": "1"},
+        "components": {"securitySchemes": {"sec": sec}},
+        "security": [{"sec": []}],
+        "paths": {f"/s{i}": {"get": {"parameters": [{"name": "q", "in": "query", "schema": {"type": "integer"}}],
+                                     "responses": {"200": {"description": "ok"}, "401": {"description": "no"}}}} for i in range(3)},
+    }
 
 
 def probe_runs(chk, n):
     """`ignored_auth` deliberately strips credentials for its own probes (the sanctioned exception); every *other*
-    request — before and after a probe — must still carry the user's Authorization header"""
+    request — before and after a probe — must still carry the user's credential, however it was configured"""
     from flask import Flask, jsonify, request
     from schemathesis.engine.config import EngineConfig, NetworkConfig
     from schemathesis.engine.phases import PhaseName
     from schemathesis.specs.openapi.checks import ignored_auth
     rng = chk.rng
-    for _ in range(n):
+    for i in range(n):
+        scheme = "bearer" if i % 2 == 0 else rng.choice(["query", "cookie", "header"])
+        secret = "Bearer CANARY-TOKEN" if scheme == "bearer" else "CANARY-KEY"
         log: list = []
         app = Flask("secured")
 
         @app.route("/<path:p>", methods=["GET"])
         def any_(p):
-            auth = request.headers.get("Authorization")
+            auth = {"bearer": request.headers.get("Authorization"), "query": request.args.get("api_key"),
+                    "cookie": request.cookies.get("api_key"), "header": request.headers.get("X-API-Key")}[scheme]
             log.append({"path": "/" + p, "auth": auth, "case": request.headers.get("X-Schemathesis-TestCaseId")})
-            return (jsonify({}), 200) if auth == "Bearer CANARY-TOKEN" else (jsonify({}), 401)
+            return (jsonify({}), 200) if auth == secret else (jsonify({}), 401)
         workers = rng.choice([1, 2])
-        with E.Server(app) as srv:
-            schema = E.load_schema(srv.url, raw=SECURED_RAW)
+        net, ov = {}, None
+        if scheme == "bearer":
+            net = {"Authorization": secret}
+        else:
+            cfg = {loc: {} for loc in ("query", "headers", "cookies", "path_parameters")}
+            cfg[{"query": "query", "cookie": "cookies", "header": "headers"}[scheme]]["X-API-Key" if scheme == "header" else "api_key"] = secret
+            from schemathesis.generation.overrides import Override
+            ov = Override(**cfg)
+        with Server(app) as srv:
+            schema = E.load_schema(srv.url, raw=secured_raw(scheme))
             base = E.engine_config(phases=[PhaseName.COVERAGE, PhaseName.FUZZING], workers=workers, max_examples=4,
                                    seed=rng.randint(1, 9999), checks=[ignored_auth])
-            cfg = EngineConfig(execution=base.execution, network=NetworkConfig(headers={"Authorization": "Bearer CANARY-TOKEN"}))
+            cfg = EngineConfig(execution=base.execution, network=NetworkConfig(headers=net), override=ov)
             evs = E.run_engine(schema, cfg)
         probe_ids = set()
         for ev in evs:
@@ -396,37 +498,744 @@ def probe_runs(chk, n):
                     if node.parent_id is not None and node.transition is None:
                         probe_ids.add(cid)
         regular = [r for r in log if r["case"] not in probe_ids]
-        wrong = [r for r in regular if r["auth"] != "Bearer CANARY-TOKEN"]
-        chk.case("probes:engine-run", key=[workers, len(log), len(probe_ids)], nontrivial=bool(probe_ids),
-                 sample={"workers": workers, "requests": len(log), "probe_requests": len(log) - len(regular)})
+        wrong = [r for r in regular if r["auth"] != secret]
+        chk.case("probes:engine-run", key=[scheme, workers, len(log), len(probe_ids)], nontrivial=bool(probe_ids),
+                 sample={"credential": scheme, "workers": workers, "requests": len(log), "probe_requests": len(log) - len(regular)})
         chk.feature(f"probe-requests:{'some' if probe_ids else 'none'}")
+        chk.feature(f"probe-credential:{scheme}")
         if wrong:
-            chk.violation("C14:request:user-credential-missing-on-a-regular-request-after-auth-probes",
+            how = "Authorization header" if scheme == "bearer" else f"--set-{scheme} api key"
+            chk.violation("C14:request:user-credential-missing-on-a-regular-request-after-auth-probes" if scheme == "bearer"
+                          else f"C14:request:user-api-key-override-missing-on-a-regular-request:{scheme}",
                           f"{len(wrong)} of {len(regular)} regular (non-probe) requests do not carry the configured "
-                          f"Authorization header, e.g. {wrong[0]}", {"wrong": wrong[:5], "probe_requests": len(log) - len(regular)})
+                          f"{how}, e.g. {wrong[0]}", {"credential": scheme, "wrong": wrong[:5],
+                                                     "probe_requests": len(log) - len(regular)})
+
+
+# ---------------------------------------------------------------------------------------------------------------
+# parameter overrides (--set-query / --set-header / --set-cookie / --set-path): which entries apply to an operation and
+# what every request-building site does with them, over generated documents, configurations and request histories
+# ---------------------------------------------------------------------------------------------------------------
+
+LOCS = ["query", "headers", "cookies", "path_parameters"]
+IN2LOC = {"query": "query", "header": "headers", "cookie": "cookies", "path": "path_parameters"}
+LOC2IN = {v: k for k, v in IN2LOC.items()}
+PARAM_POOL = {"query": ["k", "tok", "page"], "header": ["X-Key", "k", "X-Tok"], "cookie": ["sid", "k"]}
+TEMPLATES = ["/r0", "/r0/{id}", "/r1/{id}", "/r2"]
+METHODS = ["get", "put", "patch", "delete", "post"]
+
+
+def _param(rng, name, in_, example_ok=True):
+    p = {"name": name, "in": in_, "schema": {"type": "integer" if name == "id" else "string"}}
+    if in_ == "path":
+        p["required"] = True
+    elif rng.random() < 0.2:
+        p["required"] = True
+    if example_ok and in_ != "path" and rng.random() < 0.3:
+        p["example"] = f"ex-{in_[0]}-{name}"
+    return p
+
+
+def gen_ov_doc(rng, linked=False):
+    """An Open API document with several operations per path template whose declared parameter sets differ, the same
+    names in different locations, path-level shared parameters. `linked`: a POST root and links that force an order
+    through the sibling operations of one path template."""
+    paths = {}
+    templ = rng.sample(TEMPLATES, rng.randint(1, 2 if linked else 3))
+    if linked and not any("{id}" in t for t in templ):
+        templ[0] = "/r0/{id}"
+    for t in templ:
+        item = {}
+        shared = []
+        if "{id}" in t and rng.random() < 0.5:
+            shared.append(_param(rng, "id", "path"))
+        for in_, names in PARAM_POOL.items():
+            for nm in names:
+                if rng.random() < 0.12:
+                    shared.append(_param(rng, nm, in_, example_ok=False))
+        if shared:
+            item["parameters"] = shared
+        methods = rng.sample(METHODS[:4] if linked else METHODS, rng.randint(2, 4))
+        for m in methods:
+            params = []
+            if "{id}" in t and not any(p["name"] == "id" for p in shared):
+                params.append(_param(rng, "id", "path"))
+            dens = rng.choice([0.15, 0.4, 0.7])
+            for in_, names in PARAM_POOL.items():
+                for nm in names:
+                    if rng.random() < dens:
+                        params.append(_param(rng, nm, in_))
+            op = {"operationId": f"{m}{t.replace('/', '_').replace('{id}', 'id')}", "parameters": params,
+                  "responses": {"200": {"description": "ok", "content": {"application/json": {"schema": {"type": "object"}}}}}}
+            item[m] = op
+        paths[t] = item
+    raw = {"openapi": "3.0.2", "info": {"title": "t", "version": "1"}, "paths": paths}
+    chain = None
+    if linked:
+        t = rng.choice([x for x in templ if "{id}" in x])
+        sibs = [m for m in METHODS if m in paths[t]]
+        rng.shuffle(sibs)
+        root = {"operationId": "mkroot", "requestBody": {"required": True, "content": {"application/json": {"schema": {
+            "type": "object", "properties": {"n": {"type": "integer"}}, "required": ["n"], "additionalProperties": False}}}},
+            "responses": {"201": {"description": "ok", "content": {"application/json": {"schema": {"type": "object"}}},
+                                   "links": {"l0": {"operationId": paths[t][sibs[0]]["operationId"],
+                                                    "parameters": {"id": "$response.body#/id"}}}}}}
+        paths["/mk"] = {"post": root}
+        for a, b in zip(sibs, sibs[1:]):
+            paths[t][a]["responses"]["200"]["links"] = {f"to_{b}": {"operationId": paths[t][b]["operationId"],
+                                                                    "parameters": {"id": "$response.body#/id"}}}
+        chain = [("post", "/mk")] + [(m, t) for m in sibs]
+    return raw, chain
+
+
+def declared_of(raw, path, method):
+    """the parameters an operation declares, read off the document (operation level, then the path-level ones it does
+    not redefine) -> [(container, name)]"""
+    item = raw["paths"][path]
+    own = list(item[method].get("parameters", []))
+    seen = {(p["in"], p["name"]) for p in own}
+    out = [(IN2LOC[p["in"]], p["name"]) for p in own]
+    for p in item.get("parameters", []):
+        if (p["in"], p["name"]) not in seen:
+            out.append((IN2LOC[p["in"]], p["name"]))
+    return out
+
+
+def doc_ops(raw):
+    return [(path, m) for path, item in raw["paths"].items() for m in item if m in METHODS]
+
+
+def gen_override(rng):
+    """a --set-* configuration over the parameter pool (+ names nothing declares); values name their entry"""
+    dens = rng.choice([0.3, 0.6, 0.9])
+    cfg = {loc: {} for loc in LOCS}
+    for in_, names in PARAM_POOL.items():
+        for nm in names + ["zz"]:
+            if rng.random() < dens:
+                cfg[IN2LOC[in_]][nm] = f"U{in_[0]}-{nm}"
+    if rng.random() < 0.5:
+        cfg["path_parameters"]["id"] = "77"
+    if rng.random() < 0.2:
+        cfg["path_parameters"]["zz"] = "Up-zz"
+    return cfg
+
+
+def mk_override(cfg):
+    from schemathesis.generation.overrides import Override
+    return Override(query=dict(cfg["query"]), headers=dict(cfg["headers"]), cookies=dict(cfg["cookies"]),
+                    path_parameters=dict(cfg["path_parameters"]))
+
+
+def w_ov(cfg):
+    return {loc: pairs(list(cfg[loc].items())) for loc in LOCS}
+
+
+def w_op(path, method, decl):
+    return {"path": path, "method": method, "params": [[loc, nm] for loc, nm in decl]}
+
+
+def w_cont(c):
+    return {loc: (None if c.get(loc) is None else pairs([(k, str(v)) for k, v in c[loc].items()])) for loc in LOCS}
+
+
+def from_w(m):
+    return {loc: (None if m.get(loc) is None else {k: v for k, v in m[loc]}) for loc in LOCS}
+
+
+def snap(case):
+    out = {}
+    for loc in LOCS:
+        v = getattr(case, loc)
+        out[loc] = None if v is None else {k: str(x) for k, x in dict(v).items()}
+    return out
+
+
+def norm_empty(c):
+    """`None` and `{}` are the same request"""
+    return {loc: (c.get(loc) or None) for loc in LOCS}
+
+
+def eq_cont(loc, a, b):
+    if loc == "headers":
+        return {k.lower(): v for k, v in (a or {}).items()} == {k.lower(): v for k, v in (b or {}).items()}
+    return (a or {}) == (b or {})
+
+
+def py_expected(cfg, decl):
+    d = set(decl)
+    return {loc: {n: v for n, v in cfg[loc].items() if (loc, n) in d} for loc in LOCS}
+
+
+def py_judge(cfg, decl, req, base):
+    """independent oracle for the Lean `judge`: [kind, container, name]"""
+    d = set(decl)
+
+    def look(loc, n, c):
+        c = c.get(loc) if c else None
+        if c is None:
+            return None
+        if loc == "headers":
+            hit = None
+            for k, v in c.items():
+                if k.lower() == n.lower():
+                    hit = v
+            return hit
+        return c.get(n)
+    out = []
+    for loc in LOCS:
+        for n, v in cfg[loc].items():
+            if (loc, n) in d and look(loc, n, req) != v:
+                out.append(["missing", loc, n])
+    for loc in LOCS:
+        for n, v in cfg[loc].items():
+            if (loc, n) not in d and look(loc, n, req) == v and look(loc, n, base) != v:
+                out.append(["invented", loc, n])
+    return out
+
+
+def judge_all(chk, drv, items):
+    """items: [(cfg, decl, req, base)] -> verdict lists by the Lean specification, cross-checked with the Python oracle"""
+    reqs = [("judge", {"ov": w_ov(cfg), "op": w_op("", "", decl), "req": w_cont(req), "base": w_cont(base or {})})
+            for cfg, decl, req, base in items]
+    outs = drv.batch(reqs) if reqs else []
+    res = []
+    for (cfg, decl, req, base), m in zip(items, outs):
+        if isinstance(m, dict) and "__err__" in m:
+            raise InfraError(f"judge error {m}")
+        lean = sorted([v[0], v[1], v[2]] for v in m)
+        py = sorted(py_judge(cfg, decl, req, base or {}))
+        if lean != py:
+            raise InfraError(f"C14 specification (Lean judge) and the Python oracle disagree: {lean} vs {py} on "
+                             f"{cfg} {decl} {req} {base}")
+        res.append(lean)
+    return res
+
+
+def detect_kwargs_variant(chk):
+    """FC14a witness on the real code: one --header, one applicable --set-header"""
+    from schemathesis.engine.config import EngineConfig, NetworkConfig
+    from schemathesis.engine.context import EngineContext
+    from schemathesis.engine.phases.unit import get_strategy_kwargs
+    raw = {"openapi": "3.0.2", "info": {"title": "t", "version": "1"}, "paths": {"/a": {"get": {"parameters": [
+        {"name": "X-Key", "in": "header", "schema": {"type": "string"}}], "responses": {"200": {"description": "ok"}}}}}}
+    schema = E.load_schema("http://127.0.0.1:9", raw=raw)
+    cfg = {"query": {}, "headers": {"X-Key": "USER"}, "cookies": {}, "path_parameters": {}}
+    ctx = EngineContext(schema=schema, stop_event=threading.Event(),
+                        config=EngineConfig(network=NetworkConfig(headers={"X-B": "1"}), override=mk_override(cfg)))
+    got = get_strategy_kwargs(ctx, schema["/a"]["GET"])
+    v = "repaired" if (got.get("headers") or {}).get("X-Key") == "USER" else "asFound"
+    chk.variants["get_strategy_kwargs:header-override-vs-configured-headers"] = v
+    if v == "asFound":
+        chk.violation(SIG_FC14A, "the applicable --set-header entry is replaced by the configured --header dict",
+                      {"network_headers": {"X-B": "1"}, "override": cfg, "operation": "GET /a declares header X-Key",
+                       "kwargs": got})
+    return v
+
+
+SIG_FC14A = "C14:get_strategy_kwargs:header-override-dropped-when-headers-configured"
+
+
+def gen_net_headers(rng):
+    r = rng.random()
+    if r < 0.45:
+        return {}
+    if r < 0.55:
+        return {"User-Agent": "ua/1"}
+    return dict((rng.choice(["X-B", "X-Other", "user-agent", "X-Tok2"]), rng.choice(["1", "2"])) for _ in range(rng.randint(1, 3)))
+
+
+def overrides_corr(chk, n_docs, variant):
+    """`Override.for_operation` and `get_strategy_kwargs` on every operation of generated documents vs the model;
+    replay: exactly the applicable entries are selected / passed on"""
+    from schemathesis.engine.config import EngineConfig, NetworkConfig
+    from schemathesis.engine.context import EngineContext
+    from schemathesis.engine.phases.unit import get_strategy_kwargs
+    rng = chk.rng
+    drv = chk.driver()
+    reqs, reals = [], []
+    for _ in range(n_docs):
+        raw, _ = gen_ov_doc(rng)
+        schema = E.load_schema("http://127.0.0.1:9", raw=raw)
+        for _ in range(2):
+            cfg = gen_override(rng)
+            use_none = rng.random() < 0.1
+            ov = None if use_none else mk_override(cfg)
+            eff = {loc: {} for loc in LOCS} if use_none else cfg
+            net = gen_net_headers(rng)
+            ctx = EngineContext(schema=schema, stop_event=threading.Event(),
+                                config=EngineConfig(network=NetworkConfig(headers=net), override=ov))
+            for path, m in doc_ops(raw):
+                op = schema[path][m.upper()]
+                decl = declared_of(raw, path, m)
+                sel = ov.for_operation(op) if ov is not None else {loc: {} for loc in LOCS}
+                kw = get_strategy_kwargs(ctx, op)
+                reqs.append(("for_operation", {"ov": w_ov(eff), "op": w_op(path, m, decl)}))
+                reqs.append(("strategy_kwargs", {"variant": variant, "ov": w_ov(eff), "net": pairs(list(net.items())),
+                                                 "op": w_op(path, m, decl)}))
+                reals.append((raw, path, m, decl, eff, net, sel, kw))
+    outs = drv.batch(reqs)
+    for i, (raw, path, m, decl, cfg, net, sel, kw) in enumerate(reals):
+        m_sel, m_kw = from_w(outs[2 * i]), from_w(outs[2 * i + 1])
+        siblings = [x for x in doc_ops(raw) if x[0] == path]
+        differs = len({frozenset(declared_of(raw, *x)) for x in siblings}) > 1
+        same_name = len({n for _, n in decl}) < len(decl)
+        inp = {"operation": f"{m.upper()} {path}", "declared": decl, "override": cfg, "network_headers": net,
+               "siblings": {f"{x[1].upper()} {x[0]}": declared_of(raw, *x) for x in siblings}}
+        chk.case("overrides:Override.for_operation", key=[path, m, decl, cfg], nontrivial=any(cfg.values()),
+                 sample={**inp, "selected": sel})
+        chk.case("overrides:get_strategy_kwargs", key=[path, m, decl, cfg, net], nontrivial=any(cfg.values()) or bool(net),
+                 sample={**inp, "kwargs": kw})
+        chk.feature(f"ov-siblings-differ:{differs}")
+        chk.feature(f"ov-same-name-in-several-locations:{same_name}")
+        chk.feature(f"ov-applicable-entries:{min(sum(len(v) for v in py_expected(cfg, decl).values()), 3)}")
+        exp = py_expected(cfg, decl)
+        if any(not eq_cont("x", sel.get(loc), m_sel[loc]) for loc in LOCS):
+            chk.disagreement("overrides:Override.for_operation", inp, m_sel, sel)
+        if {loc: (m_sel[loc] or {}) for loc in LOCS} != exp:
+            raise InfraError(f"C14 model of for_operation and the Python oracle disagree on {inp}: {m_sel} vs {exp}")
+        for loc in LOCS:
+            got = sel.get(loc) or {}
+            for nme, v in exp[loc].items():
+                if got.get(nme) != v:
+                    chk.violation("C14:Override.for_operation:applicable-entry-not-selected",
+                                  f"{m.upper()} {path} declares {LOC2IN[loc]} parameter {nme!r}, the user set it to {v!r}, "
+                                  f"for_operation selected {got.get(nme)!r}", {**inp, "selected": sel})
+            for nme in got:
+                if nme not in exp[loc]:
+                    chk.violation("C14:Override.for_operation:entry-selected-for-a-parameter-the-operation-does-not-declare",
+                                  f"{m.upper()} {path} does not declare {LOC2IN[loc]} parameter {nme!r} but for_operation "
+                                  f"selected it", {**inp, "selected": sel})
+        # get_strategy_kwargs: canonical comparison (absent == None; a name present in both the configured headers and
+        # the header override may carry either value — the transport applies the configured header anyway)
+        both = {k.lower() for k in exp["headers"] if any(k.lower() == h.lower() for h in net)}
+        diff = False
+        for loc in LOCS:
+            a, b = dict(kw.get(loc) or {}), dict(m_kw[loc] or {})
+            if loc == "headers":
+                a = {k: v for k, v in a.items() if k.lower() not in both}
+                b = {k: v for k, v in b.items() if k.lower() not in both}
+            if a != b:
+                diff = True
+        if diff:
+            chk.disagreement("overrides:get_strategy_kwargs", inp, m_kw, kw)
+        for loc in LOCS:
+            got = kw.get(loc) or {}
+            for nme, v in exp[loc].items():
+                if loc == "headers" and nme.lower() in both:
+                    continue
+                if got.get(nme) != v:
+                    if loc == "headers" and net and variant == "asFound":
+                        chk.violation(SIG_FC14A, "header override replaced by the configured headers", {**inp, "kwargs": kw})
+                    else:
+                        chk.violation("C14:get_strategy_kwargs:override-dropped",
+                                      f"{m.upper()} {path}: applicable override {loc}.{nme}={v!r} is not passed to the "
+                                      f"generators (got {got.get(nme)!r})", {**inp, "kwargs": kw})
+            if loc != "headers":
+                for nme in got:
+                    if nme not in exp[loc]:
+                        chk.violation("C14:get_strategy_kwargs:override-for-a-parameter-the-operation-does-not-declare",
+                                      f"{m.upper()} {path}: {loc}.{nme} handed to the generators although the operation does "
+                                      f"not declare it", {**inp, "kwargs": kw})
+        if net:
+            for k, v in net.items():
+                if k.lower() != "user-agent" and (kw.get("headers") or {}).get(k) != v:
+                    chk.violation("C14:get_strategy_kwargs:configured-header-dropped",
+                                  f"configured header {k} is not passed to the generators", {**inp, "kwargs": kw})
+
+
+def gen_case_data(rng, decl, path):
+    """what the generators / a link produced for one request: some declared names (other values), now and then a
+    name in another spelling or an undeclared one"""
+    c = {}
+    for loc in LOCS:
+        names = [n for l2, n in decl if l2 == loc]
+        r = rng.random()
+        if loc == "path_parameters":
+            c[loc] = {n: "5" for n in names} or None
+            continue
+        if r < 0.35:
+            c[loc] = None
+        elif r < 0.42:
+            c[loc] = {}
+        else:
+            d = {n: f"g-{n}" for n in names if rng.random() < 0.7}
+            if rng.random() < 0.15:
+                d["extra"] = "g-extra"
+            if loc == "headers" and d and rng.random() < 0.2:
+                k = rng.choice(list(d))
+                d[k.lower() if k.lower() != k else k.upper()] = d.pop(k)
+            c[loc] = d
+    return c
+
+
+def real_before_call_history(schema, ov, steps):
+    """Drives the REAL `before_call` of the instrumented state machine class that `execute_state_machine_loop` builds:
+    the scripted base class gets hold of the class in `run`, instantiates it and calls `before_call` on each case of
+    the history, in order, inside one loop invocation. Returns the containers of every case afterwards."""
+    import queue as _q
+    from schemathesis.engine.config import EngineConfig
+    from schemathesis.engine.context import EngineContext
+    from schemathesis.engine.phases.stateful._executor import execute_state_machine_loop
+    out = []
+    seen_base = []
+
+    class Scripted:
+        def __init__(self):
+            pass
+
+        def before_call(self, case):
+            seen_base.append(case)
+
+        @classmethod
+        def run(cls, settings=None):
+            inst = cls()
+            for path, m, data in steps:
+                op = schema[path][m.upper()]
+                case = op.Case(**{loc: (None if data.get(loc) is None else dict(data[loc])) for loc in LOCS})
+                inst.before_call(case)
+                out.append(snap(case))
+    ctx = EngineContext(schema=schema, stop_event=threading.Event(), config=EngineConfig(override=ov))
+    q: _q.Queue = _q.Queue()
+    execute_state_machine_loop(state_machine=Scripted, event_queue=q, engine=ctx)
+    if len(out) != len(steps) or len(seen_base) != len(steps):
+        raise InfraError("scripted state machine: before_call was not driven for every step")
+    return out
+
+
+def gen_history(rng, raw):
+    """a sequence of operations biased towards siblings of one path template in both orders"""
+    ops = doc_ops(raw)
+    by_path = {}
+    for path, m in ops:
+        by_path.setdefault(path, []).append((path, m))
+    multi = [v for v in by_path.values() if len(v) > 1]
+    hist = []
+    for _ in range(rng.randint(2, 7)):
+        if multi and rng.random() < 0.75:
+            hist.append(rng.choice(rng.choice(multi)))
+        else:
+            hist.append(rng.choice(ops))
+    return hist
+
+
+def stateful_history_corr(chk, n_docs, per_doc):
+    rng = chk.rng
+    drv = chk.driver()
+    reqs, reals = [], []
+    for _ in range(n_docs):
+        raw, _ = gen_ov_doc(rng)
+        schema = E.load_schema("http://127.0.0.1:9", raw=raw)
+        for _ in range(per_doc):
+            cfg = gen_override(rng)
+            use_none = rng.random() < 0.06
+            eff = {loc: {} for loc in LOCS} if use_none else cfg
+            hist = gen_history(rng, raw)
+            steps = [(path, m, gen_case_data(rng, declared_of(raw, path, m), path)) for path, m in hist]
+            real = real_before_call_history(schema, None if use_none else mk_override(cfg), steps)
+            wsteps = [{"op": w_op(path, m, declared_of(raw, path, m)), "case": w_cont(data)} for path, m, data in steps]
+            reqs.append(("stateful_run", {"resolver": "perCall", "ov": w_ov(eff), "steps": wsteps}))
+            reals.append((raw, eff, steps, real))
+    outs = drv.batch(reqs)
+    items, where = [], []
+    for (raw, cfg, steps, real), m in zip(reals, outs):
+        if isinstance(m, dict) and "__err__" in m:
+            raise InfraError(f"stateful_run model error {m}")
+        model = [from_w(x) for x in m]
+        hist = [f"{mm.upper()} {path}" for path, mm, _ in steps]
+        sib = any(steps[i][0] == steps[j][0] and steps[i][1] != steps[j][1] and
+                  set(declared_of(raw, steps[i][0], steps[i][1])) != set(declared_of(raw, steps[j][0], steps[j][1]))
+                  for i in range(len(steps)) for j in range(i))
+        chk.case("overrides:stateful-before_call-history", key=[cfg, [(p, mm, d) for p, mm, d in steps]],
+                 nontrivial=any(cfg.values()), sample={"override": cfg, "history": hist, "cases_after": real})
+        chk.feature(f"history-sibling-with-other-parameters-earlier:{sib}")
+        chk.feature(f"history-length:{len(steps)}")
+        flagged = False
+        for k, ((path, mm, data), r, mo) in enumerate(zip(steps, real, model)):
+            if any(not eq_cont(loc, r[loc], mo[loc]) for loc in LOCS):
+                if not flagged:
+                    chk.disagreement("overrides:stateful-before_call-history",
+                                     {"override": cfg, "history": [[f"{m2.upper()} {p2}", declared_of(raw, p2, m2), d2]
+                                                                   for p2, m2, d2 in steps[:k + 1]], "step": k}, mo, r)
+                flagged = True
+            items.append((cfg, declared_of(raw, path, mm), r, data))
+            where.append((raw, cfg, steps, k, r))
+    for (raw, cfg, steps, k, r), verdicts in zip(where, judge_all(chk, drv, items)):
+        path, mm, data = steps[k]
+        for kind, loc, nme in verdicts:
+            earlier = [f"{m2.upper()} {p2}" for p2, m2, _ in steps[:k] if p2 == path and m2 != mm]
+            tail = "-after-another-operation-on-the-same-path" if earlier else ""
+            rep = {"override": cfg, "history": [{"operation": f"{m2.upper()} {p2}", "declares": declared_of(raw, p2, m2),
+                                                 "case_before": d2} for p2, m2, d2 in steps[:k + 1]],
+                   "failing_step": k, "case_after_before_call": r, "document": raw}
+            if kind == "missing":
+                chk.violation(f"C14:stateful.before_call:applicable-override-missing{tail}",
+                              f"step {k} ({mm.upper()} {path}) declares {LOC2IN[loc]} parameter {nme!r} and the user set it to "
+                              f"{cfg[loc][nme]!r}, but after before_call the case has {(r[loc] or {}).get(nme)!r}"
+                              + (f" (earlier in the run: {', '.join(earlier)})" if earlier else ""), rep)
+            else:
+                chk.violation(f"C14:stateful.before_call:override-written-for-an-operation-that-does-not-declare-it{tail}",
+                              f"step {k} ({mm.upper()} {path}) does not declare {LOC2IN[loc]} parameter {nme!r} but before_call "
+                              f"wrote the user's value" + (f" (earlier in the run: {', '.join(earlier)})" if earlier else ""), rep)
+
+
+def examples_and_coverage_corr(chk, n_docs, variant):
+    """the examples-phase `merge_explicit` (through the real `get_strategies_from_examples`, the case strategy replaced by
+    a recorder) and the coverage-phase override loop (real `add_coverage`), fed by the real `get_strategy_kwargs`"""
+    from unittest import mock
+    from hypothesis import strategies as st
+    from schemathesis.engine.config import EngineConfig, NetworkConfig
+    from schemathesis.engine.context import EngineContext
+    from schemathesis.engine.phases.unit import get_strategy_kwargs
+    from schemathesis.generation import GenerationMode
+    from schemathesis.generation.hypothesis import builder as B
+    from schemathesis.specs.openapi import examples as X
+    rng = chk.rng
+    drv = chk.driver()
+    reqs, reals = [], []
+    for _ in range(n_docs):
+        raw, _ = gen_ov_doc(rng)
+        schema = E.load_schema("http://127.0.0.1:9", raw=raw)
+        cfg = gen_override(rng)
+        net = gen_net_headers(rng) if rng.random() < 0.4 else {}
+        ctx = EngineContext(schema=schema, stop_event=threading.Event(),
+                            config=EngineConfig(network=NetworkConfig(headers=net), override=mk_override(cfg)))
+        for path, m in doc_ops(raw):
+            op = schema[path][m.upper()]
+            decl = declared_of(raw, path, m)
+            kw = get_strategy_kwargs(ctx, op)
+            rec = []
+
+            def recorder(**kwargs):
+                rec.append(kwargs)
+                return st.none()
+            with mock.patch.object(X, "openapi_cases", recorder):
+                X.get_strategies_from_examples(op)
+                plain = list(rec)
+                del rec[:]
+                X.get_strategies_from_examples(op, **{k: (dict(v) if isinstance(v, dict) else v) for k, v in kw.items()})
+                merged = list(rec)
+            if len(plain) != len(merged):
+                raise InfraError("examples: the number of example combinations depends on the configuration")
+            for ex, got in zip(plain, merged):
+                exc = {loc: ex.get(loc) for loc in LOCS}
+                gotc = {loc: got.get(loc) for loc in LOCS}
+                reqs.append(("examples_merge", {"kwargs": w_cont(kw), "ex": w_cont(exc)}))
+                reals.append(("examples", raw, path, m, decl, cfg, net, kw, exc, gotc))
+            # coverage
+            if rng.random() < 0.5:
+                before = [snap(c) for c in B._iter_coverage_cases(op, [GenerationMode.POSITIVE, GenerationMode.NEGATIVE], None)]
+
+                def t(case):
+                    pass
+                t2 = B.add_coverage(t, op, [GenerationMode.POSITIVE, GenerationMode.NEGATIVE], None,
+                                    {k: (dict(v) if isinstance(v, dict) else v) for k, v in kw.items()})
+                after = [snap(e.kwargs["case"]) for e in getattr(t2, "hypothesis_explicit_examples", [])]
+
+                def consistent(bs, as_):
+                    return len(bs) == len(as_) and all(
+                        {k: v for k, v in (b[loc] or {}).items() if k not in (kw.get(loc) or {})} ==
+                        {k: v for k, v in (a[loc] or {}).items() if k not in (kw.get(loc) or {})}
+                        for b, a in zip(bs, as_) for loc in LOCS)
+                paired = consistent(before, after)
+                if not paired and consistent(before, after[::-1]):
+                    after, paired = after[::-1], True
+                chk.feature(f"coverage-cases-paired-with-their-template:{paired}")
+                for i, a in enumerate(after[:12]):
+                    b = before[i] if paired else None
+                    if b is not None:
+                        reqs.append(("coverage_apply", {"kwargs": w_cont(kw), "case": w_cont(b)}))
+                    else:
+                        reqs.append(("coverage_apply", {"kwargs": w_cont(kw), "case": w_cont(a)}))
+                    reals.append(("coverage", raw, path, m, decl, cfg, net, kw, b, a))
+    outs = drv.batch(reqs)
+    items = []
+    for (site, raw, path, m, decl, cfg, net, kw, base, got), mo in zip(reals, outs):
+        mo = from_w(mo)
+        inp = {"operation": f"{m.upper()} {path}", "declared": decl, "override": cfg, "network_headers": net, "kwargs": kw,
+               "example" if site == "examples" else "case_before": base}
+        mech = "overrides:examples-merge_explicit" if site == "examples" else "overrides:add_coverage"
+        chk.case(mech, key=[path, m, decl, cfg, net, base], nontrivial=bool(kw), sample={**inp, "result": got})
+        chk.feature(f"{site}-with-same-name-in-data:{any((base or {}).get(loc) and set(base[loc]) & set(kw.get(loc) or {}) for loc in LOCS)}")
+        if base is not None and any(not eq_cont(loc, got[loc], mo[loc]) for loc in LOCS):
+            chk.disagreement(mech, inp, mo, got)
+        items.append((cfg, decl, got, base))
+    for (site, raw, path, m, decl, cfg, net, kw, base, got), verdicts in zip(reals, judge_all(chk, drv, items)):
+        for kind, loc, nme in verdicts:
+            rep = {"operation": f"{m.upper()} {path}", "declared": decl, "override": cfg, "network_headers": net,
+                   "kwargs_from_get_strategy_kwargs": kw, "before": base, "after": got, "document": raw}
+            if kind == "missing" and loc == "headers" and net and variant == "asFound":
+                chk.violation(SIG_FC14A, "header override replaced by the configured headers", rep)
+            elif kind == "missing":
+                sig = ("C14:examples.merge_explicit:schema-example-wins-over-the-user-override" if site == "examples"
+                       else "C14:add_coverage:applicable-override-missing-on-a-coverage-case")
+                chk.violation(sig, f"{site}: {m.upper()} {path} declares {LOC2IN[loc]} parameter {nme!r}, the user set it to "
+                                   f"{cfg[loc][nme]!r}, the case data has {(got[loc] or {}).get(nme)!r}", rep)
+            else:
+                chk.violation(f"C14:{site}:override-written-for-an-operation-that-does-not-declare-it",
+                              f"{site}: {m.upper()} {path} does not declare {LOC2IN[loc]} parameter {nme!r}", rep)
+
+
+def _match_op(raw, method, url_path):
+    import re
+    for path, m in doc_ops(raw):
+        if m != method.lower():
+            continue
+        rx = "^" + re.escape(path).replace(re.escape("{id}"), "([^/]*)") + "$"
+        mm = re.match(rx, url_path)
+        if mm:
+            return path, m, (mm.group(1) if mm.groups() else None)
+    return None
+
+
+def engine_override_runs(chk, n, variant):
+    """Real engine runs on generated documents whose links force an order through the sibling operations of one path
+    template (POST root -> sibling -> sibling …), a generated --set-* configuration, a recording loopback API.
+    Replay: every request that reaches the API for an operation that declares an overridden parameter carries the user's
+    value, and one for an operation that does not declare it does not get it."""
+    from flask import Flask, jsonify, request
+    from schemathesis.engine.config import EngineConfig, NetworkConfig
+    from schemathesis.engine.phases import PhaseName
+    rng = chk.rng
+    drv = chk.driver()
+    items, meta = [], []
+    for _ in range(n):
+        raw, chain = gen_ov_doc(rng, linked=True)
+        cfg = gen_override(rng)
+        # make sure the configuration says something about the chained siblings
+        sib_decl = [(loc, nm) for m, t in chain[1:] for loc, nm in declared_of(raw, t, m) if loc != "path_parameters"]
+        if sib_decl and not any(nm in cfg[loc] for loc, nm in sib_decl):
+            loc, nm = rng.choice(sib_decl)
+            cfg[loc][nm] = f"U{LOC2IN[loc][0]}-{nm}"
+        net = {"X-Other": "CANARY-O"} if rng.random() < 0.4 else {}
+        phases = [PhaseName.STATEFUL_TESTING]
+        if rng.random() < 0.4:
+            phases = [PhaseName.EXAMPLES, PhaseName.FUZZING] + phases
+        if rng.random() < 0.25:
+            phases = [PhaseName.COVERAGE] + phases
+        phases.sort(key=lambda p: E.PHASE_ORDER.index(p.name))
+        log: list = []
+        app = Flask("ov")
+
+        @app.route("/<path:p>", methods=["GET", "POST", "PUT", "PATCH", "DELETE"])
+        def any_(p):
+            log.append({"method": request.method, "path": "/" + p, "query": {k: v[-1] for k, v in request.args.lists()},
+                        "headers": {k: v for k, v in request.headers.items()}, "cookies": dict(request.cookies)})
+            return (jsonify({"id": 5}), 201) if request.method == "POST" else (jsonify({"id": 5}), 200)
+        with Server(app) as srv:
+            schema = E.load_schema(srv.url, raw=raw)
+            base = E.engine_config(phases=phases, workers=rng.choice([1, 2]), max_examples=rng.choice([3, 4]),
+                                   stateful_step_count=len(chain) + 2, seed=rng.randint(1, 9999))
+            evs = E.run_engine(schema, EngineConfig(execution=base.execution, network=NetworkConfig(headers=net),
+                                                    override=mk_override(cfg)))
+        phase_of = {}
+        for ev in evs:
+            if type(ev).__name__ == "ScenarioFinished":
+                for cid in ev.recorder.cases:
+                    phase_of[cid] = ev.phase.name
+        fatal = [e for e in evs if type(e).__name__ in ("FatalError",)]
+        if fatal:
+            raise InfraError(f"engine run failed: {fatal[0]}")
+        reached = []
+        for r in log:
+            hit = _match_op(raw, r["method"], r["path"])
+            if hit is None:
+                continue
+            path, m, seg = hit
+            decl = declared_of(raw, path, m)
+            req = {"query": r["query"], "headers": r["headers"], "cookies": r["cookies"],
+                   "path_parameters": ({"id": seg} if seg is not None else None)}
+            ph = phase_of.get(r["headers"].get("X-Schemathesis-Testcaseid") or r["headers"].get("X-Schemathesis-TestCaseId"), "?")
+            items.append((cfg, decl, req, None))
+            meta.append((path, m, decl, req, ph, raw, chain, cfg, net))
+            if ph == "STATEFUL_TESTING":
+                reached.append((m, path))
+        depth = max([chain.index(x) for x in set(reached) if x in chain], default=-1)
+        chk.case("overrides:engine-run-with-forced-order", key=[cfg, chain, len(log)], nontrivial=bool(log),
+                 sample={"override": cfg, "chain": [f"{m.upper()} {t}" for m, t in chain], "requests": len(log),
+                         "phases": [p.name for p in phases]})
+        chk.feature(f"engine-chain-depth-reached:{depth}")
+        for p in phases:
+            chk.feature(f"engine-override-phase:{p.name}")
+    for (path, m, decl, req, ph, raw, chain, cfg, net), verdicts in zip(meta, judge_all(chk, drv, items)):
+        for kind, loc, nme in verdicts:
+            rep = {"override": cfg, "network_headers": net, "phase": ph, "request": {"method": m.upper(), "path": path, **req},
+                   "operation_declares": decl, "forced_order": [f"{mm.upper()} {t}: {declared_of(raw, t, mm)}" for mm, t in chain],
+                   "document": raw}
+            if kind == "missing" and loc == "headers" and net and variant == "asFound" and ph != "STATEFUL_TESTING":
+                chk.violation(SIG_FC14A, "header override replaced by the configured headers", rep)
+            elif kind == "missing":
+                chk.violation(f"C14:request:override-missing-or-overridden:{ph.lower()}:{loc}",
+                              f"{ph}: request {m.upper()} {path} reached the API with {LOC2IN[loc]} {nme}="
+                              f"{(req[loc] or {}).get(nme)!r}; the operation declares it and the user set it to {cfg[loc][nme]!r}", rep)
+            else:
+                chk.violation(f"C14:request:override-on-an-operation-that-does-not-declare-it:{ph.lower()}:{loc}",
+                              f"{ph}: request {m.upper()} {path} carries the user's {LOC2IN[loc]} {nme} although the operation "
+                              f"does not declare it", rep)
 
 
 def run(chk):
     chk.proved += ["prepare_headers_user_wins / prepare_headers_keeps_case", "update_wins / update_keeps / "
                    "explicit_survives_merge / override_wins", "strategy_headers_complete", "test_storage_first / "
                    "schema_storage_before_global / first_with_data_spec", "cache_fetches_spaced (all interleavings, all clocks, "
-                   "any number of callers)"]
-    chk.partial += ["which request-building paths consult the configuration at all (examples, coverage, fuzzing, stateful, "
-                    "links) is glue: covered by the canary runs, not by theorems",
-                    "requests' own merging of session-level headers/auth is assumed as documented"]
+                   "any number of callers)",
+                   "for_operation_exact / for_operation_only_declared (an entry is selected iff the operation declares that "
+                   "name in that location)",
+                   "before_call_user_wins / before_call_user_wins_headers / before_call_no_invention / before_call_identity",
+                   "strategy_kwargs_carries_partial / _full_false (FC14a) / _repaired, strategy_kwargs_no_invention",
+                   "every_phase_carries_override (examples, coverage, fuzzing, stateful; query/cookies/path parameters)",
+                   "site_history_independent / stateful_every_request_carries_override / stateful_no_invention (every "
+                   "sequence of requests)", "site_memo_sound / site_memo_sound_iff / memo_by_operation_sound (which 'resolve "
+                   "once' caches are sound) and memo_by_path_loses_override / memo_by_path_invents_override (the path-keyed "
+                   "cache is not)"]
+    chk.partial += ["that every request-building path consults the configuration at all (examples, coverage, fuzzing, stateful, "
+                    "links) is glue: covered by the engine runs against the recording API, not by theorems",
+                    "requests' own merging of session-level headers/auth is assumed as documented",
+                    "header overrides in the examples/fuzzing phases are proved at the level of the kwargs handed to the "
+                    "generators (exact names); on the wire only for the stateful site",
+                    "header names are matched with their exact spelling by _for_parameters (--set-header x-key does not apply "
+                    "to a declared X-Key): modelled as found, not judged"]
     chk.assumptions += ["requests.structures.CaseInsensitiveDict semantics (last spelling kept, case-insensitive lookup)",
-                        "threading.Lock is a mutex; the provider's timer is monotone"]
+                        "threading.Lock is a mutex; the provider's timer is monotone",
+                        "the parameters an operation declares are read off the document by the harness (operation level, "
+                        "then path level) and handed to the model; C08 owns parameter collection"]
+    chk.trusted += ["the scripted base class handed to the real execute_state_machine_loop (it only instantiates the "
+                    "instrumented subclass and calls its before_call)"]
     headers_corr(chk, chk.budget(1500, 20000))
     strategy_kwargs_corr(chk, chk.budget(150, 2000))
     cache_seq_corr(chk, chk.budget(400, 5000))
     storage_corr(chk, chk.budget(200, 3000))
+    storage_filters_corr(chk, chk.budget(150, 2000))
     cache_threads(chk, chk.budget(4, 30))
     canary_runs(chk, chk.budget(6, 60))
-    probe_runs(chk, chk.budget(3, 30))
+    probe_runs(chk, chk.budget(4, 30))
+    variant = detect_kwargs_variant(chk)
+    overrides_corr(chk, chk.budget(25, 400), variant)
+    stateful_history_corr(chk, chk.budget(25, 300), chk.budget(6, 10))
+    examples_and_coverage_corr(chk, chk.budget(12, 150), variant)
+    engine_override_runs(chk, chk.budget(4, 60), variant)
 
 
 def replay(chk, data):
     import json
     print(data.get("what"))
-    print(json.dumps(data.get("replay"), indent=1, default=str)[:6000])
+    r = data.get("replay") or {}
+    if isinstance(r, dict) and "history" in r and "document" in r and "override" in r:
+        # a recorded stateful history: re-run it on the real `before_call` and on the model
+        raw, cfg = r["document"], r["override"]
+        steps = []
+        for h in r["history"]:
+            method, path = h["operation"].split(" ", 1)
+            steps.append((path, method.lower(), h["case_before"]))
+        schema = E.load_schema("http://127.0.0.1:9", raw=raw)
+        real = real_before_call_history(schema, mk_override(cfg), steps)
+        wsteps = [{"op": w_op(path, m, declared_of(raw, path, m)), "case": w_cont(d)} for path, m, d in steps]
+        model = chk.driver().batch([("stateful_run", {"resolver": "perCall", "ov": w_ov(cfg), "steps": wsteps})])[0]
+        for k, ((path, m, d), re_, mo) in enumerate(zip(steps, real, model)):
+            print(f"step {k}: {m.upper()} {path} declares {declared_of(raw, path, m)}")
+            print("   case before   :", json.dumps(d, default=str))
+            print("   implementation:", json.dumps(norm_empty(re_), default=str))
+            print("   model         :", json.dumps(norm_empty(from_w(mo)), default=str))
+            print("   specification :", py_judge(cfg, declared_of(raw, path, m), re_, d) or "ok")
+        return 0
+    print(json.dumps(r, indent=1, default=str)[:6000])
     return 0
